@@ -255,6 +255,23 @@ impl StreamsState {
         self.connection_blocked.clear();
     }
 
+    /// Whether no more streams can be opened, per direction
+    pub(crate) fn at_stream_limit(&self) -> [bool; 2] {
+        [Dir::Bi, Dir::Uni].map(|dir| self.next[dir as usize] >= self.max[dir as usize])
+    }
+
+    /// The negotiated stream limits replaced the ones remembered for 0-RTT
+    ///
+    /// Tells an application that was at the remembered limit in `was_limited` directions that it
+    /// may open streams again, as a MAX_STREAMS frame would.
+    pub(crate) fn stream_limits_replaced(&mut self, was_limited: [bool; 2]) {
+        for dir in Dir::iter() {
+            if was_limited[dir as usize] && self.next[dir as usize] < self.max[dir as usize] {
+                self.events.push_back(StreamEvent::Available { dir });
+            }
+        }
+    }
+
     /// Process incoming stream frame
     ///
     /// If successful, returns whether a `MAX_DATA` frame needs to be transmitted
